@@ -319,12 +319,12 @@ Definition run_conv (cfg : config) (be : backend) (phases : list (list raw)) : l
   serve fuel cfg be phases.
 
 (* the property oracles, evaluated on the implementation's recorded behaviour *)
-Definition conv_oracle (cfg : config) (be : backend) (obs expect : list sx) : list bytes :=
+Definition conv_oracle_x (nomodel : bool) (cfg : config) (be : backend) (obs expect : list sx) : list bytes :=
   match assoc1 "events" obs, assoc1 "deliveries" obs, assoc1 "panics" obs with
   | Some (SL evx), Some (SL delx), Some px =>
       match map_opt dec_event evx, map_opt dec_event delx, sx_N px with
       | Some evs, Some dels, Some panics =>
-          let plan_panics := existsb (fun p => dp_panic p || match dp_status p with [] => false | _ => true end) (be_data be) in
+          let plan_panics := nomodel || existsb (fun p => dp_panic p || match dp_status p with [] => false | _ => true end) (be_data be) in
           dedup (oracle_sessions cfg evs ++ oracle_size cfg (evs ++ dels)
                  ++ oracle_verdict (cf_lmtp cfg) evs ++ oracle_incomplete (cf_lmtp cfg) evs
                  ++ oracle_panics panics plan_panics
@@ -344,6 +344,8 @@ Definition conv_oracle (cfg : config) (be : backend) (obs expect : list sx) : li
       end
   | _, _, _ => [bs "UNDECODABLE-OBSERVATION"]
   end.
+
+Definition conv_oracle := conv_oracle_x false.
 
 Definition check_conv (args : list sx) : verdict :=
   match assoc "cfg" args, assoc "be" args, assoc1 "phases" args, assoc "obs" args with
@@ -370,7 +372,10 @@ Definition check_conv (args : list sx) : verdict :=
             | _ => ([], [])
             end in
           let f6 := f6_signature (cf_max_line cfg) phases in
-          mkV true (agree && mon_ok) model (dedup (conv_oracle cfg be obs expect ++ syn_viol))
+          (* (nomodel): the backend panics in a callback the model has no script for (Mail, Rcpt, Reset);
+             such cases are judged by the oracles on the recorded behaviour only *)
+          let nomodel := match assoc "nomodel" expect with Some _ => true | None => false end in
+          mkV true (nomodel || (agree && mon_ok)) model (dedup (conv_oracle_x nomodel cfg be obs expect ++ syn_viol))
               (syn_kf ++ (if f6 then [bs "F6"] else []))
               ((match assoc "expect" args with Some e => [bs "focus-" ++ focus_of e] | None => [] end) ++ conv_tags cfg evs ++ (if trace_nondet cfg evs then [bs "nondet-param-order"] else [])
                ++ (if mon_ok then [] else [bs "MODEL-TRACE-REJECTED-BY-MONITOR"]))
